@@ -304,6 +304,14 @@ func runC07(tier string) int {
 	for _, cr := range classRunes {
 		classAtoms = append(classAtoms, wordAtom("a"+string(cr)+"b", "a", string(cr), "b"))
 	}
+	// ... and the identifier-like literals of the compiler's own source as words (a word that equals a key of the width table, say)
+	for _, wd := range dict.Identifiers(dict.Load(repoDir()), 24) {
+		var glyphs []string
+		for _, g := range wd {
+			glyphs = append(glyphs, string(g))
+		}
+		classAtoms = append(classAtoms, wordAtom(wd, glyphs...))
+	}
 	all := append(append([]fmtAtom{}, atoms...), classAtoms...)
 	nAll, nB, nC := uint64(len(all)), uint64(len(atoms)), uint64(len(classAtoms))
 	classDone := r.Parallel(nAll+nAll*nAll+nB*nC*nB, func(w int, idx uint64) {
